@@ -15,7 +15,7 @@ use tari_bulletproofs_plus::{
 
 use crate::{
     eng::{ext_of, Engine, RngSpec, F, R},
-    fp::{g_id, H_ID},
+    fp::{g_id, FP, H_ID},
     gen::{cfg_strategy, ctx_strategy, mask_of, triple_strategy, Cfg, CtxSpec, Triple, TripleSpec},
     mutate::pick,
     props::c13::{extract, Nonces},
@@ -251,10 +251,36 @@ pub fn oracle_f(_ctx: &RunCtx, spec: &HedgeSpec, log: &mut CaseLog) -> Result<()
         Ok((bytes, n))
     };
     let (b1, n1) = prove(&run1)?;
+    // in half of the cases the second run is preceded, on the same thread, by a prover call for ANOTHER witness that is refused
+    // late (promise above the value): nothing of that call may survive into the next one
+    let mut after_refusal = false;
+    if spec.delta & 4 != 0 && t.values[0] < u64::MAX {
+        let other: Vec<Vec<Scalar>> = t.blindings.iter().map(|r| r.iter().map(|x| x + Scalar::ONE).collect()).collect();
+        let pc = run1.st.generators.pc_gens().clone();
+        let cs: Vec<FP> = t
+            .values
+            .iter()
+            .zip(other.iter())
+            .map(|(v, r)| F::commit(&pc, &Scalar::from(*v), r).map_err(|e| format!("{:?}", e)))
+            .collect::<Result<_, _>>()?;
+        let mut proms = run1.st.minimum_value_promises.clone();
+        proms[0] = Some(t.values[0] + 1);
+        if let Ok(st_bad) = RangeStatement::init(run1.st.generators.clone(), cs, proms, t.seed) {
+            let w_bad = RangeWitness::init(t.values.iter().zip(other.iter()).map(|(v, r)| CommitmentOpening::new(*v, r.clone())).collect())
+                .map_err(|e| format!("{:?}", e))?;
+            if guarded(|| F::prove(&mut run1.ctx.transcript(), &st_bad, &w_bad, &mut spec.base.rng.make()))?.is_ok() {
+                return Err("prover accepted a promise above the value".into());
+            }
+            after_refusal = true;
+        }
+    }
     let (b2, n2) = prove(&run2)?;
     if diff == Diff::Nothing {
         if b1 != b2 {
-            return Err("identical runs (same inputs, same RNG stream) produced different proofs".into());
+            return Err(format!(
+                "identical runs (same inputs, same RNG stream) produced different proofs{}",
+                if after_refusal { " - the second one directly after a refused prover call for another witness on the same thread" } else { "" }
+            ));
         }
     } else {
         let (s1, s2): (Vec<(String, Scalar)>, Vec<(String, Scalar)>) = if t.seed.is_some() {
@@ -283,6 +309,7 @@ pub fn oracle_f(_ctx: &RunCtx, spec: &HedgeSpec, log: &mut CaseLog) -> Result<()
     log.label(format!("hedge:fault={}", spec.base.rng.class()));
     log.label(format!("hedge:diff={}", diff.kind()));
     log.label(format!("hedge:seed={}", t.seed.is_some()));
+    log.label(format!("hedge:second-run-after-a-refused-call={}", after_refusal));
     log.labels(t.classes());
     if diff != Diff::Nothing {
         log.nontrivial(&(spec.base.rng.class(), diff.kind(), t.seed.is_some(), cfg, spec.base.bulk));
@@ -513,7 +540,7 @@ pub fn def() -> PropertyDef {
                fed the SAME faulty stream and differing in exactly one of {nothing, transcript context, one promise, one promise value moved to another position of the aggregate ([Some(q), None] against [None, Some(q)]), one commitment (other \
                blinding), witness value with the SAME commitment (blinding generator g_last := h, so (v; r_last) and (v+-1; r_last-+1) collide), \
                witness blinding split between two generated components k1, k2 with the SAME commitment (g_k2 := g_k1)} at a generated position of the aggregate, with and without a seed. \
-               Engine F reads every nonce as a coordinate (see C13). Oracle: 'nothing' => byte-identical proofs; otherwise the RNG-derived \
+               Engine F reads every nonce as a coordinate (see C13). Oracle: 'nothing' => byte-identical proofs (in half of the cases the second run directly follows, on the same thread, a prover call for another witness that is refused late); otherwise the RNG-derived \
                nonces (all of them without a seed; r and s with one) of the two runs are pairwise different. Second oracle (engine F), 'never computable from public data alone': an adversary who knows the public transcript and the failed RNG's output rebuilds, at every rebuild point, the transcript RNG without the witness and draws from it; no RNG-derived nonce of the proof may be among those draws. Engine R cross-check: for context / \
                blinding-split differences no proof element may be byte-identical across the runs. Non-trivial = a one-field difference; distinct \
                by (fault model, difference kind, seed?, configuration, case)."
